@@ -260,6 +260,19 @@ def place(path, table, px, mode="symm", at=None, cols=("count",), names=None, pr
     return uri
 
 
+def int_encode(uri):
+    """Rewrite bins/chrom of a collection as PLAIN integer IDs (no HDF5 enum) - the encoding cooler itself falls back to when
+    the chromosome names do not fit an enum header (thousands of contigs)."""
+    import h5py
+    fp, grp = split_uri(uri)
+    with h5py.File(fp, "r+") as f:
+        g = f[grp]
+        ids = g["bins/chrom"][:].astype("int32")
+        del g["bins/chrom"]
+        ds = g["bins"].create_dataset("chrom", data=ids, dtype="int32")
+        ds.attrs["enum_path"] = "/chroms/name"
+
+
 def feat(seed, h):
     """Independent pseudo-random feature choices for case number h: f(name, n) in 0..n-1 depends on (seed, h, name) only, so
     two features are uncorrelated whatever their moduli (striding h % n couples every pair of features whose moduli share a
